@@ -63,15 +63,23 @@ UrlKids(v) ==
 CoreK(ks) == [i \in 1..Len(ks) |-> [ty |-> ks[i].ty, val |-> ks[i].val, obf |-> ks[i].obf, s |-> ks[i].s, e |-> ks[i].e]]
 \* outside the judged domain: IPv6 hosts, and hosts that still carry a percent-escape after normalisation
 UrlDomain(v) == LET sp == UrlSplit(v)  h == Sl(v, AuthSplit(v, sp.auth).host) IN ~HasPct(h) /\ ~(\E i \in 1..Len(h) : h[i] = LBR \/ h[i] = RBR)
-UrlClauses ==
-  IF ~UrlDomain(T.val) THEN {"n/a"}
-  ELSE LET exp == UrlKids(T.val)  got == CoreK(T.kids) IN
+\* a bracketed (IPv6) host: how the address itself is normalised is outside the judged domain, every other part is not
+Bracketed(v) == LET sp == UrlSplit(v)  h == Sl(v, AuthSplit(v, sp.auth).host) IN
+                ~HasPct(h) /\ Len(h) >= 2 /\ h[1] = LBR /\ h[Len(h)] = RBR /\ ~(\E i \in 2..(Len(h) - 1) : h[i] = LBR \/ h[i] = RBR)
+Judge2(got, exp) ==
        IF got = exp THEN {}
        ELSE IF Len(got) = Len(exp) /\ \A i \in 1..Len(got) : got[i].ty = exp[i].ty
             THEN (IF \E i \in 1..Len(got) : got[i].s # exp[i].s \/ got[i].e # exp[i].e THEN {"url.part.span"} ELSE {})
                  \cup (IF \E i \in 1..Len(got) : got[i].val # exp[i].val THEN {"url.part.value"} ELSE {})
                  \cup (IF \E i \in 1..Len(got) : got[i].obf # exp[i].obf THEN {"url.part.label"} ELSE {})
             ELSE {"url.parts"}
+UrlClauses ==
+  IF Bracketed(T.val)
+  THEN LET hostSp == AuthSplit(T.val, UrlSplit(T.val).auth).host
+           notHost(k) == ~(k.ty \in {"network.ip", "network.ipv6", "network.domain"} /\ k.s >= hostSp[1] /\ k.e <= hostSp[2])
+       IN Judge2(SelectSeq(CoreK(T.kids), notHost), SelectSeq(UrlKids(T.val), notHost))
+  ELSE IF ~UrlDomain(T.val) THEN {"n/a"}
+  ELSE Judge2(CoreK(T.kids), UrlKids(T.val))
 
 \* ---- C12: Windows paths -----------------------------------------------------------------------
 EXE == <<46, 101, 120, 101>>  DLL == <<46, 100, 108, 108>>
